@@ -133,6 +133,10 @@ VARIANTS = [
     dict(name="twin: rebuild loop over a materialised traversal", kind="twin", file=CORE,
          old="        for p, l, r in tree.traverse():\n            if ind in tree.get_legs(l) or ind in tree.get_legs(r):",
          new="        for p, l, r in tuple(tree.traverse()):\n            if ind in tree.get_legs(l) or ind in tree.get_legs(r):"),
+    dict(name="round3: reconfiguration cache shared with copies", kind="break",
+         edits=[(CORE, "            \"sliced_inds\",\n            \"preprocessing\",\n        ):", "            \"sliced_inds\",\n            \"preprocessing\",\n            \"already_optimized\",\n        ):"),
+                (CORE, "        for attr in (\"info\", \"already_optimized\"):", "        for attr in (\"info\",):")],
+         expect=("C04-COPY", "already_optimized")),
 ]
 for v in VARIANTS:
     v.pop("edits", None) if v.get("edits") is None else None
